@@ -456,30 +456,46 @@ def resolve_ties(ctx: C.Ctx, lines, impl, inputs) -> None:
             if predicted != impl[idx]:
                 ctx.disagree("cmap-opens", inputs[idx][1], [p.replace(root, "{ROOT}") for p in impl[idx]],
                              [p.replace(root, "{ROOT}") for p in predicted])
-    # images: replay the naming sequentially through the model
+    # images: replay the naming through the model; the listing grows with the model's own answers, so the
+    # k-th image of every case is asked in one batch (round k)
+    states = []
     for idx, item in enumerate(lines):
-        if item[0] != "images":
-            continue
-        _, specs, existing, outdir = item
-        cur = list(existing)
-        created = []
-        ok = True
-        for (nm, ext) in specs:
-            reply = ctx.driver.ask(["image %s %s %s %s" % (hexs(outdir), hexs(nm), hexs(ext),
-                                                           ",".join(hexs(x) for x in cur) or "-")])[0]
+        if item[0] == "images":
+            _, specs, existing, outdir = item
+            states.append({"idx": idx, "specs": list(specs), "cur": list(existing), "outdir": outdir, "created": [],
+                           "ok": True, "done": False})
+    rnd = 0
+    while True:
+        batch, owners = [], []
+        for st in states:
+            if st["done"] or rnd >= len(st["specs"]):
+                st["done"] = True
+                continue
+            nm, ext = st["specs"][rnd]
+            batch.append("image %s %s %s %s" % (hexs(st["outdir"]), hexs(nm), hexs(ext),
+                                                ",".join(hexs(x) for x in st["cur"]) or "-"))
+            owners.append(st)
+        if not batch:
+            break
+        for st, reply in zip(owners, ctx.driver.ask(batch)):
             if reply in ("none", "bad-op"):
-                ok = False
-                break
+                st["ok"] = False
+                st["done"] = True
+                continue
             a, b = reply.split(" ")
             name = bytes.fromhex(a).decode("utf-8", "surrogateescape") if a != "-" else ""
             path = bytes.fromhex(b).decode("utf-8", "surrogateescape")
             if len(name.encode("utf-8", "surrogateescape")) > 255:
-                break            # the OS refuses the name: pdfminer raises, nothing more is created
-            cur.append(name)
-            created.append(os.path.relpath(os.path.normpath(path), os.path.dirname(outdir)))
-        ctx.branch("tie:images-created=%d" % len(created))
-        if ok and sorted(created) != impl[idx]:
-            ctx.disagree("image-paths", inputs[idx][1], impl[idx], sorted(created))
+                st["done"] = True      # the OS refuses the name: pdfminer raises, nothing more is created
+                continue
+            st["cur"].append(name)
+            st["created"].append(os.path.relpath(os.path.normpath(path), os.path.dirname(st["outdir"])))
+        rnd += 1
+    for st in states:
+        idx = st["idx"]
+        ctx.branch("tie:images-created=%d" % len(st["created"]))
+        if st["ok"] and sorted(st["created"]) != impl[idx]:
+            ctx.disagree("image-paths", inputs[idx][1], impl[idx], sorted(st["created"]))
 
 
 def physically_exists(p: str, after: Dict[str, Any]) -> bool:
